@@ -34,3 +34,11 @@ pub use popcount::{popcount_word, popcount_word_portable, popcount_words};
 pub use rank::RankDirectory;
 pub use scan::{block_popcount_portable, scan_select, scan_select_scalar, select_from, BLOCK};
 pub use select::{SampleWord, SelectIndex};
+
+#[cfg(all(
+    succinctly_verif,
+    target_arch = "x86_64",
+    any(feature = "std", test)
+))]
+#[doc(hidden)]
+pub use scan::verif_block_popcount_avx2;
